@@ -325,7 +325,15 @@ def multiex_rule(repo, chk):
     # missing symbols removed
     rm = [c for c in calls(fn, attr=('remove', 'discard', 'difference_update')) if isinstance(c.func.value, ast.Name)]
     ok_rm = any('missing' in ast.unparse(c.args[0]) for c in rm if c.args)
-    chk.expect(ok_rm, 'C11.3c', 'R13', fn.site(rm[0]) if rm else fn.site(), ast.unparse(rm[0]) if rm else 'unique_values.remove(missing_symbol)', 'missing-value symbols do not become indicator columns', 'missing-value symbols must be removed from the token universe', soft=True)
+    # nothing in the function that could take an element out of a collection (no removal call, no set difference, no `not in` filter):
+    # the missing-value symbols are then certainly kept - decided positively, whatever the shape of the rest
+    could_remove = bool(rm) or any(isinstance(n, ast.BinOp) and isinstance(n.op, ast.Sub) for n in own_nodes(fn.node)) \
+        or any(isinstance(n, ast.Compare) and any(isinstance(o, (ast.NotIn, ast.In)) for o in n.ops) and 'missing' in ast.unparse(n) for n in own_nodes(fn.node)) \
+        or bool(calls(fn, attr=('difference', 'pop', 'symmetric_difference', 'intersection', 'intersection_update')))
+    if not could_remove:
+        chk.bad('C11.3c', 'R13', fn.site(), 'no removal of the missing-value symbols anywhere in the function', 'missing-value symbols must be removed from the token universe: nothing in the function removes or filters them, so they become indicator columns')
+    else:
+        chk.expect(ok_rm, 'C11.3c', 'R13', fn.site(rm[0]) if rm else fn.site(), ast.unparse(rm[0]) if rm else 'unique_values.remove(missing_symbol)', 'missing-value symbols do not become indicator columns', 'missing-value symbols must be removed from the token universe', soft=True)
 
 
 def subfeature_rules(repo, chk):
@@ -394,13 +402,39 @@ def target_control(repo, chk):
     st = [n for n in own_nodes(fn.node) if isinstance(n, ast.Assign) and isinstance(n.targets[0], ast.Subscript) and isinstance(n.targets[0].slice, ast.Constant) and n.targets[0].slice.value == 'CONTROL-target']
     ok = len(st) == 1 and ast.unparse(st[0].value) in (f'{frame}[{label}]', f'{frame}[{label}].values', f'{frame}[{label}].copy()')
     chk.expect(ok, 'C11.5', 'R15', fn.site(st[0]) if st else fn.site(), ast.unparse(st[0]) if st else "new_columns['CONTROL-target'] = dataframe[label_column]", 'the target control replicates the label column', 'CONTROL-target must be the label column of the input, unmodified')
-    # all control columns have one value per row: sized by dataframe.shape[0] / one per row
-    sized = 0
-    bad = []
-    for n in own_nodes(fn.node):
-        if isinstance(n, ast.Assign) and isinstance(n.targets[0], ast.Subscript) and isinstance(n.targets[0].slice, ast.Constant) and str(n.targets[0].slice.value).startswith('CONTROL-') and n not in st:
-            sized += 1
-            txt = ast.unparse(n.value)
-            if f'{frame}.shape[0]' not in txt and f'{frame}.iterrows()' not in txt and f'len({frame})' not in txt:
-                bad.append(n)
-    chk.expect(not bad and sized >= 9, 'C11.5b', 'R13', fn.site(bad[0]) if bad else fn.site(), ast.unparse(bad[0])[:100] if bad else f'{sized} control columns sized by {frame}.shape[0]', 'every control column has one value per row', 'a control column is not sized by the number of rows of the frame', soft=True)
+    # all control columns have one value per row: on the path of the default preset every value stored under a CONTROL- key is
+    # written over the number of rows of the frame (len(frame) / frame.shape[0]) or over its rows (frame.iterrows())
+    from ..match import run_paths
+    from ..terms import walk_term
+    paths = run_paths(fn, lambda e: isinstance(e, ast.Attribute) and e.attr == 'noise_preset', 'default', max_forks=3)
+    nrows = expected_term(fn.module, f'len({frame})')
+    rows_it = expected_term(fn.module, f'{frame}.iterrows()')
+    sized, bad, unknown = 0, [], None
+    for assume, res in (paths or []):
+        if res.unknown is not None:
+            unknown = res.unknown
+            continue
+        n_here = 0
+        for u in res.updates:
+            if u['kind'] == 'store1' or (u['kind'] == 'foreach' and u.get('op') == 'store'):
+                k = u['key']
+                ktxt = k.value if isinstance(k, ast.Constant) and isinstance(k.value, str) else (k.values[0].value if isinstance(k, ast.JoinedStr) and k.values and isinstance(k.values[0], ast.Constant) else None)
+                if not isinstance(ktxt, str) or not ktxt.startswith('CONTROL-') or ktxt == 'CONTROL-target':
+                    continue
+                mult = 1
+                if u['kind'] == 'foreach':
+                    lit = u['chain'][0][1] if len(u.get('chain', [])) == 1 else None
+                    mult = len(lit.elts) if isinstance(lit, (ast.Tuple, ast.List)) else 1
+                n_here += mult
+                vt = term_of(fn, u['value'], inline=False)
+                if not any(x == nrows or x == rows_it for x in walk_term(vt)):
+                    bad.append(u['node'])
+        sized = max(sized, n_here)
+    if paths is None or (unknown is not None and not sized):
+        chk.unsure('C11.5b', 'R13', fn.site(unknown) if unknown is not None else fn.site(), 'control columns', 'the default-preset path of construct_new_features could not be evaluated')
+    elif bad:
+        chk.bad('C11.5b', 'R13', fn.site(bad[0]), ast.unparse(bad[0])[:100], 'a control column is not sized by the number of rows of the frame')
+    elif sized >= 9:
+        chk.ok('C11.5b', 'R13', fn.site(), f'{sized} control columns sized by the rows of {frame}', 'every control column has one value per row')
+    else:
+        chk.bad('C11.5b', 'R13', fn.site(), f'{sized} control columns found on the default-preset path', 'fewer control columns than the nine noise controls are generated', soft=True)
